@@ -113,21 +113,34 @@ fn linux_reflink(src: &PathAndMetadata, dest: &PathAndMetadata, log: &dyn Log) -
         }
     };
 
+    // Open the file to be overwritten before anything is created or changed.
+    // If it cannot be written to (read-only, immutable, a program being executed),
+    // there is nothing to undo.
+    let dest_file = fs::OpenOptions::new().write(true).open(&std_link)?;
+
     // Backup via reflink, if this fails then the fs does not support reflinking.
     if let Err(e) = reflink_overwrite(&std_link, &std_tmp) {
         remove_temporary(tmp);
         return Err(e);
     }
 
-    match reflink_overwrite(&fs_target, &std_link) {
+    match reflink_into(&fs_target, &dest_file) {
         Err(e) => {
-            if let Err(remove_err) = FsCommand::unsafe_rename(&tmp, &dest.path) {
-                log.warn(format!(
-                    "Failed to undo deduplication from {} to {}: {}",
-                    &dest,
-                    tmp.display(),
-                    remove_err
-                ))
+            // Put the original data back into the file itself, so it keeps its identity,
+            // permissions, owner, attributes and hard links. Replace the file with its backup
+            // only if that fails as well.
+            match reflink_into(&std_tmp, &dest_file) {
+                Ok(()) => remove_temporary(tmp),
+                Err(_) => {
+                    if let Err(remove_err) = FsCommand::unsafe_rename(&tmp, &dest.path) {
+                        log.warn(format!(
+                            "Failed to undo deduplication from {} to {}: {}",
+                            &dest,
+                            tmp.display(),
+                            remove_err
+                        ))
+                    }
+                }
             }
             Err(e)
         }
@@ -141,17 +154,22 @@ fn linux_reflink(src: &PathAndMetadata, dest: &PathAndMetadata, log: &dyn Log) -
 /// Reflink `target` to `link` and expect these two files to be equally sized.
 #[cfg(any(target_os = "linux", target_os = "android"))]
 fn reflink_overwrite(target: &std::path::Path, link: &std::path::Path) -> io::Result<()> {
-    use nix::request_code_write;
-    use std::os::unix::prelude::AsRawFd;
-
-    let src = fs::File::open(target)?;
-
     // This operation does not require `.truncate(true)` because the files are already of the same size.
     let dest = fs::OpenOptions::new()
         .create(true)
         .truncate(false)
         .write(true)
         .open(link)?;
+    reflink_into(target, &dest)
+}
+
+/// Reflink `target` to the open file `dest`.
+#[cfg(any(target_os = "linux", target_os = "android"))]
+fn reflink_into(target: &std::path::Path, dest: &fs::File) -> io::Result<()> {
+    use nix::request_code_write;
+    use std::os::unix::prelude::AsRawFd;
+
+    let src = fs::File::open(target)?;
 
     // From /usr/include/linux/fs.h:
     // #define FICLONE		_IOW(0x94, 9, int)
